@@ -672,7 +672,7 @@ def _history(ck: Checker, prog: Program):
         for (func, text), effs in groups.items():
             e = effs[0]
             ck.violation(P + "R5", func, text,
-                         f"processing modifies {'module-level state' if e.origin[0] == 'G' else 'the caller\'s recording'} ({describe_effect(e)}): the curve of a "
+                         f"processing modifies {'module-level state' if e.origin[0] == 'G' else 'a recording of the caller'} ({describe_effect(e)}): the curve of a "
                          f"recording would depend on what has been processed before; entry {q}", loc=f.loc(), path=chain_text(e))
 
 
